@@ -470,9 +470,10 @@ NAME
 
 DESCRIPTION
    Truncates name to max length of VSNAMELENMAX
-   If new name is longer than the current name set new_h_sz,
+   If the length of the new name differs from the current one set new_h_sz,
       so that VSdetach will delete the original vdata header
-      and write a new header.
+      and write a new header (the header is parsed relative to the end
+      of its element, so it cannot be rewritten shorter in place).
 
 RETURNS
    SUCCEED/FAIL
@@ -517,7 +518,7 @@ VSsetname(int32       vkey, /* IN: Vdata key */
 
     vs->marked = TRUE; /* mark vdata as being modified */
 
-    if (curr_len < slen)
+    if (curr_len != slen)
         vs->new_h_sz = TRUE; /* mark vdata header size being changed */
 
 done:
@@ -530,7 +531,7 @@ NAME
 
 DESCRIPTION
    Truncates class name to max length of VSNAMELENMAX
-   If new class is longer than the current class set new_h_sz,
+   If the length of the new class differs from the current one set new_h_sz,
    so that VSdetach will delete the original vdata header
    and write a new header.
 
@@ -577,7 +578,7 @@ VSsetclass(int32       vkey, /* IN: vdata key */
 
     vs->marked = TRUE; /* mark vdata as being modified */
 
-    if (curr_len < slen)
+    if (curr_len != slen)
         vs->new_h_sz = TRUE; /* mark vdata header size being changed */
 
 done:
